@@ -254,7 +254,7 @@ def main(argv=None):
                         json.dump(rec, open(path, 'w'), indent=1, default=str)
                 except subprocess.TimeoutExpired:
                     pass
-            if not confirmed and replayable and o['backend'].startswith('z3-model'):
+            if not confirmed and replayable and o['backend'].startswith('z3-model'):   # includes abstract samples
                 # a solver model that the native code does not reproduce: the model may assign impossible values to
                 # symbols that stand for callee results (contracts are weaker than bodies) -> undecided, not a violation
                 undecided.append((cn, o['name'] + ' :: solver counter-model not reproduced on the native code (see %s)' % path))
